@@ -1331,6 +1331,8 @@ class sptensor:
             R = U[1].shape[1]
         else:
             R = U[0].shape[1]
+        if any(U[i].shape[1] != R for i in range(self.ndims) if i != n):
+            assert False, "Entries in U must have the same number of columns"
 
         V = np.zeros((self.shape[n], R), order=self.order)
         for r in range(R):
